@@ -152,7 +152,9 @@ func (f *Formatter) formatComment(comments ast.Comments, sep string, level int) 
 
 	buf.Reset()
 	for i := range comments {
-		if comments[i].PreviousEmptyLines > 0 {
+		// An empty line is kept in front of a comment on its own line only: for an inline comment
+		// it would break the line in the middle of the statement (and the next pass would join it again)
+		if comments[i].PreviousEmptyLines > 0 && sep == "\n" {
 			buf.WriteString("\n")
 		}
 		// #FASTLY macros are not indented
